@@ -28,7 +28,8 @@ Emit(tag, id, r) == PrintT(<<tag, id, ToJson(r)>>)
 
 \* what C19 compares of a rule
 ProjNode(nd) == [field |-> nd.field, raw |-> nd.raw, pos |-> nd.pos]
-ProjRule(r)  == [type |-> r.type, name |-> r.name, first |-> r.first, last |-> r.last, err |-> r.err,
+\* ng: the rule is the first one of its group (the partition of the rules into groups is compared too)
+ProjRule(r)  == [type |-> r.type, name |-> r.name, first |-> r.first, last |-> r.last, err |-> r.err, ng |-> r.ng,
                  nodes |-> [k \in DOMAIN r.nodes |-> ProjNode(r.nodes[k])]]
 ProjFile(f)  == [k \in DOMAIN f.rules |-> ProjRule(f.rules[k])]
 
@@ -47,7 +48,7 @@ RECURSIVE LevelSig(_, _)
 LevelSig(ls, i) ==
   IF i > Len(ls) THEN ""
   ELSE (IF ls[i].seq THEN "s" ELSE "m") \o Digit(ls[i].step) \o (IF ls[i].key = "rules" THEN "r" ELSE "k")
-       \o (IF ls[i].sibB THEN "b" ELSE "") \o (IF ls[i].sibA THEN "a" ELSE "") \o (IF i < Len(ls) THEN "." ELSE "") \o LevelSig(ls, i + 1)
+       \o (IF ls[i].sl THEN "l" ELSE "") \o (IF ls[i].sibB THEN "b" ELSE "") \o (IF ls[i].sibA THEN "a" ELSE "") \o (IF i < Len(ls) THEN "." ELSE "") \o LevelSig(ls, i + 1)
 WrapShape(lay) == lay.base \o ":" \o (IF lay.wrap.levels = <<>> THEN "-" ELSE LevelSig(lay.wrap.levels, 1))
                   \o (IF lay.wrap.embed THEN ":embed" ELSE "") \o (IF lay.wrap.docB THEN ":docB" ELSE "") \o (IF lay.wrap.docA THEN ":docA" ELSE "")
 HasSeq(lay) == \E i \in DOMAIN lay.wrap.levels : lay.wrap.levels[i].seq
@@ -59,6 +60,7 @@ Diff(a, b) ==
        IF S = {} THEN "none"
        ELSE LET k == CHOOSE m \in S : \A o \in S : m <= o IN
             CASE a[k].type # b[k].type \/ a[k].name # b[k].name \/ a[k].err # b[k].err -> "rule"
+              [] a[k].ng # b[k].ng -> "group"
               [] a[k].first # b[k].first \/ a[k].last # b[k].last -> "lines"
               [] Len(a[k].nodes) # Len(b[k].nodes) -> "fields"
               [] \E j \in DOMAIN a[k].nodes : a[k].nodes[j].field # b[k].nodes[j].field \/ a[k].nodes[j].raw # b[k].nodes[j].raw -> "value"
@@ -68,7 +70,14 @@ Judge(rec, R) ==
   LET lay   == rec.lay
       S     == ProjFile(rec.strict)
       X     == ProjFile(rec.relaxed)
-      W     == ProjFile(rec.wrapped)
+      WW    == ProjFile(rec.wrapped)
+      \* sibling keys of the wrapper that hold a rule list of their own contribute R.nB rules in front and R.nA behind,
+      \* each a group of its own
+      sized == Len(WW) >= R.nB + R.nA
+      W     == IF sized THEN SubSeq(WW, R.nB + 1, Len(WW) - R.nA) ELSE WW
+      sibs  == /\ sized
+               /\ \A k \in 1..R.nB : WW[k].name = "SibB" /\ WW[k].ng /\ WW[k].err = ""
+               /\ \A k \in (Len(WW) - R.nA + 1)..Len(WW) : WW[k].name = "SibA" /\ WW[k].ng /\ WW[k].err = ""
       want  == Displaced(X, R.dLine, R.dCol, lay.wrap.embed, rec.base)
       \* binding: the parser finds in the unwrapped document the rules the layout wrote - judged on the strict
       \* result for a rule file (relaxed /= strict is then the `modes` verdict), on the relaxed one for a bare list
@@ -88,8 +97,9 @@ Judge(rec, R) ==
           ELSE Emit("UNEXP", rec.id, [what |-> "not strict-valid: " \o rec.strict.err, shape |-> WrapShape(lay)])
      ELSE TRUE
   \* wrapped = displaced(unwrapped)
-  /\ IF rec.wrapped.err = "" /\ rec.wrapped.panic = "" /\ W = want THEN TRUE
-     ELSE Emit("VIOL", rec.id, [kind |-> "wrap", diff |-> IF rec.wrapped.err # "" \/ rec.wrapped.panic # "" THEN "error" ELSE Diff(want, W),
+  /\ IF rec.wrapped.err = "" /\ rec.wrapped.panic = "" /\ W = want /\ sibs THEN TRUE
+     ELSE Emit("VIOL", rec.id, [kind |-> "wrap", diff |-> IF rec.wrapped.err # "" \/ rec.wrapped.panic # "" THEN "error"
+                                                        ELSE IF W = want THEN "siblings" ELSE Diff(want, W),
                                 shape |-> WrapShape(lay), seq |-> HasSeq(lay)])
 
 TCase ==
